@@ -18,7 +18,7 @@ SHARED = ["aten::mm", "aten::add", "cudaLaunchKernel", "Memcpy HtoD (Pageable ->
           "void at::native::vectorized_elementwise_kernel<4, at::native::FillFunctor<float>>(int)", "Context Sync", "Event Sync",
           "élève::中文", "", " leading space", "Trace"]
 
-TS_MODES = ["int", "int", "dyadic", "decimal", "intts_fracdur", "int_as_float"]
+TS_MODES = ["int", "int", "dyadic", "decimal", "intts_fracdur", "int_as_float", "fracts_intdur"]
 
 
 def gen_rank(rnd: random.Random, rank: int, p: Dict[str, Any]) -> Dict[str, Any]:
@@ -32,12 +32,12 @@ def gen_rank(rnd: random.Random, rank: int, p: Dict[str, Any]) -> Dict[str, Any]
             return x
         if mode == "int_as_float":
             return float(x)
-        if mode == "dyadic":
+        if mode in ("dyadic", "fracts_intdur"):
             return x + rnd.choice([0.0, 0.25, 0.5, 0.75])
         return x + rnd.choice([0.0, 0.123, 0.5, 0.999, 0.001])
 
     def D(x: int):
-        if mode == "int":
+        if mode in ("int", "fracts_intdur"):
             return x
         if mode == "int_as_float":
             return float(x)
@@ -132,14 +132,14 @@ def gen_fileset(rnd: random.Random, tier: str, big: bool = False) -> Dict[str, A
     n_ranks = rnd.choice([1, 1, 2, 2, 3, 4] + ([9, 10] if tier == "thorough" and rnd.random() < 0.1 else []))
     ts_mode = rnd.choice(TS_MODES)
     base = rnd.choice([0, 0, 3, 100, 10 ** 6, 2 ** 31 - 50, 1_700_000_000_000_000])
-    if ts_mode in ("dyadic", "decimal") and base > 2 ** 40:
+    if ts_mode in ("dyadic", "decimal", "fracts_intdur") and base > 2 ** 40:
         base = rnd.choice([0, 10 ** 6, 2 ** 33])       # keep fractions representable in a double
     n_events = rnd.randint(1, 60)
     if big:
         n_events = rnd.choice([130, 140, 300, 33000] if tier == "thorough" else [130, 140, 300])
     p = {"n_ranks": n_ranks, "ts_mode": ts_mode, "base": base, "n_events": n_events,
          "trange": rnd.choice([3, 20, 300, 5000]), "vocab": rnd.choice([1, 4, 12]),
-         "steps": rnd.choice([0, 0, 0, 1]), "p_complete": rnd.choice([0.55, 0.7, 0.9]),
+         "steps": rnd.choice([0, 0, 0, 1]), "p_complete": rnd.choice([0.55, 0.7, 0.9, 1.0]),
          "shuffle": rnd.random() < 0.4, "per_rank_offset": rnd.choice([0, 0, 1000, -7])}
     files = {}
     for r in range(n_ranks):
